@@ -129,7 +129,7 @@ func c17Names(maxLen int) (chunks [][]string, total int) {
 
 func runC17(c *engine.Ctx) {
 	c.Level = "model_checking"
-	c.Rule = "case = PUT /<name> for every string over {a,z,0,9,-,.,A,_} up to the length bound plus the length/IP families, on mem, bolt and multi-bucket fs, compared with an independent regex-free implementation of the stated rule; refused names are probed with HEAD, and after every chunk ListBuckets must equal the set of created names; distinct_nontrivial = distinct names accepted by the oracle"
+	c.Rule = "case = PUT /<name> for every string over {a,z,0,9,-,.,A,_} up to the length bound plus the length/IP families, on mem, bolt and multi-bucket fs, compared with an independent regex-free implementation of the stated rule; refused names are probed with HEAD, and after every chunk ListBuckets must equal the set of created names; plus every ordered triple of 9 valid names that are prefixes/neighbours of one another created in one store (each must be accepted, listed, refused as existing when repeated, and deletable alone); distinct_nontrivial = distinct names accepted by the oracle"
 	c.Assumptions = append(c.Assumptions, "IPv4 look-alikes with leading zeros or components > 255 may be accepted or refused", "names containing '/' address a key, not a bucket, and are not bucket names")
 	maxLen := 6
 	if !quick(c) {
@@ -209,6 +209,58 @@ func runC17(c *engine.Ctx) {
 				c.Report(&engine.Violation{Sig: sig("C17", string(kind), "list-buckets", "created-set", "-"), World: string(kind),
 					History: []string{fmt.Sprintf("chunk %d (%d names)", ci, len(names))},
 					Msg:     fmt.Sprintf("ListBuckets on %s after the chunk: %s; listed but never created: %q; created but not listed: %q", kind, lr.Short(), clipList(extra), clipList(missing))})
+			}
+			w.Close()
+		}
+	})
+	// the decision must not depend on the buckets that already exist: every
+	// ordered triple of valid names that are prefixes / neighbours of one another
+	rel := []string{"aaa", "aaaa", "aaa-a", "aaa.aaa", "aaa.aaa.aaa", "aaa0", "aab", "aa0", "zzz"}
+	var seqs [][]string
+	for _, a := range rel {
+		for _, b := range rel {
+			for _, d := range rel {
+				if a != b && b != d && a != d {
+					seqs = append(seqs, []string{a, b, d})
+				}
+			}
+		}
+	}
+	c.Bounds["related_name_sequences"] = len(seqs)
+	engine.ParallelFor(len(seqs), func(_, i int) {
+		for _, kind := range kinds {
+			w, err := drv.NewWorld(drv.Config{Kind: kind})
+			if err != nil {
+				engine.HarnessError("C17: %v", err)
+			}
+			for j, name := range seqs[i] {
+				r := w.Do(drv.Req{Method: "PUT", Path: "/" + name})
+				c.Add(0, 1, 0, 1)
+				if r.Status != 200 || r.Panic != "" {
+					c.Report(&engine.Violation{Sig: sig("C17", string(kind), "create-bucket", "refused-valid", "next-to-related-name"), World: string(kind), History: seqs[i][:j+1],
+						Msg: fmt.Sprintf("on %s, after creating %q the valid name %q is refused: %s", kind, seqs[i][:j], name, r.Short())})
+					break
+				}
+			}
+			listed, _ := w.ListBuckets()
+			want := append([]string{}, seqs[i]...)
+			sort.Strings(want)
+			if strings.Join(listed, " ") != strings.Join(want, " ") {
+				c.Report(&engine.Violation{Sig: sig("C17", string(kind), "list-buckets", "created-set", "related-names"), World: string(kind), History: seqs[i],
+					Msg: fmt.Sprintf("on %s, after creating %q ListBuckets shows %q", kind, seqs[i], listed)})
+			}
+			// re-creating is refused as existing, not as invalid, and a sibling can still be deleted alone
+			if r := w.Do(drv.Req{Method: "PUT", Path: "/" + seqs[i][0]}); r.Status != 409 {
+				c.Report(&engine.Violation{Sig: sig("C17", string(kind), "create-bucket", "recreate", "related-names"), World: string(kind), History: seqs[i],
+					Msg: fmt.Sprintf("on %s, creating %q a second time answers %s, want 409 BucketAlreadyExists", kind, seqs[i][0], r.Short())})
+			}
+			w.Do(drv.Req{Method: "DELETE", Path: "/" + seqs[i][1]})
+			listed, _ = w.ListBuckets()
+			want = []string{seqs[i][0], seqs[i][2]}
+			sort.Strings(want)
+			if strings.Join(listed, " ") != strings.Join(want, " ") {
+				c.Report(&engine.Violation{Sig: sig("C17", string(kind), "list-buckets", "after-delete", "related-names"), World: string(kind), History: append(append([]string{}, seqs[i]...), "delete "+seqs[i][1]),
+					Msg: fmt.Sprintf("on %s, after creating %q and deleting %q ListBuckets shows %q", kind, seqs[i], seqs[i][1], listed)})
 			}
 			w.Close()
 		}
